@@ -239,7 +239,7 @@ def judge(cname, ch, obs, res):
 
 
 def work(item, res):
-    cname, bound = item
+    cname, bound, cap = item
 
     def on_exec(ch, obs):
         res.count("evaluations")
@@ -250,7 +250,7 @@ def work(item, res):
                                for u in obs["updates"]))
         judge(cname, ch, obs, res)
     n, capped = explore.dfs(lambda ch: execute(ch, cname), bound, on_exec,
-                            max_execs=30000)
+                            max_execs=cap)
     if capped:
         res.caps_hit.append(f"{cname}: capped at {n}")
     a = execute(explore.Chooser(()), cname)
@@ -261,7 +261,7 @@ def work(item, res):
 
 def run(ctx):
     bound = 2 if ctx.quick else 3
-    items = [(c, bound) for c in CONFIGS]
+    items = [(c, bound, 60000 if ctx.quick else 600000) for c in CONFIGS]
     res = core.pmap(ctx, work, items, chunk=1)
     res.cov["states"] = len(res.nontrivial)
     res.cov["traces_validated_against_impl"] = res.cov.get("evaluations", 0)
